@@ -65,6 +65,7 @@ Fixpoint lo (t : ntree) : nat :=
   | NPre i _ _ _ => i
   | NSuf _ _ _ a => lo a
   | NBin _ _ _ l _ => lo l
+  | NGroup i _ _ => i
   end.
 
 Fixpoint hi (t : ntree) : nat :=
@@ -73,6 +74,7 @@ Fixpoint hi (t : ntree) : nat :=
   | NPre _ _ _ a => hi a
   | NSuf i _ _ _ => i
   | NBin _ _ _ _ r => hi r
+  | NGroup _ _ a => hi a
   end.
 
 (* indices in token order: left operand < operator < right operand *)
@@ -82,6 +84,7 @@ Fixpoint ordered (t : ntree) : Prop :=
   | NPre i _ _ a => i < lo a /\ ordered a
   | NSuf i _ _ a => hi a < i /\ ordered a
   | NBin i _ _ l r => hi l < i /\ i < lo r /\ ordered l /\ ordered r
+  | NGroup i _ a => i < lo a /\ ordered a
   end.
 
 Fixpoint has_id (t : ntree) (j : nat) : Prop :=
@@ -90,6 +93,7 @@ Fixpoint has_id (t : ntree) (j : nat) : Prop :=
   | NPre i _ _ a => j = i \/ has_id a j
   | NSuf i _ _ a => j = i \/ has_id a j
   | NBin i _ _ l r => j = i \/ has_id l j \/ has_id r j
+  | NGroup i _ a => j = i \/ has_id a j
   end.
 
 Fixpoint size (t : ntree) : nat :=
@@ -98,6 +102,7 @@ Fixpoint size (t : ntree) : nat :=
   | NPre _ _ _ a => S (size a)
   | NSuf _ _ _ a => S (size a)
   | NBin _ _ _ l r => S (size l + size r)
+  | NGroup _ _ a => S (size a)
   end.
 
 (* steps from the leftmost node up to the root *)
@@ -107,47 +112,55 @@ Fixpoint ldepth (t : ntree) : nat :=
   | NPre _ _ _ _ => 0
   | NSuf _ _ _ a => S (ldepth a)
   | NBin _ _ _ l _ => S (ldepth l)
+  | NGroup _ _ _ => 0
   end.
 
 Lemma has_id_root t : has_id t (nid t).
 Proof. destruct t; simpl; auto. Qed.
 
+Lemma has_id_hi t : has_id t (hi t).
+Proof. induction t; simpl; auto. Qed.
+
 Lemma ordered_lo_hi t : ordered t -> lo t <= nid t <= hi t.
 Proof.
-  induction t as [i d k|i d k a IH|i d k a IH|i d k l IHl r IHr]; simpl.
+  induction t as [i d k|i d k a IH|i d k a IH|i d k l IHl r IHr|i k a IH]; simpl.
   - lia.
   - intros [H1 H2]. specialize (IH H2). lia.
   - intros [H1 H2]. specialize (IH H2). lia.
   - intros (H1 & H2 & H3 & H4). specialize (IHl H3). specialize (IHr H4). lia.
+  - intros [H1 H2]. specialize (IH H2). lia.
 Qed.
 
 Lemma ordered_range t j : ordered t -> has_id t j -> lo t <= j <= hi t.
 Proof.
-  induction t as [i d k|i d k a IH|i d k a IH|i d k l IHl r IHr]; simpl.
+  induction t as [i d k|i d k a IH|i d k a IH|i d k l IHl r IHr|i k a IH]; simpl.
   - lia.
   - intros [H1 H2] [->|Hj]; [pose proof (ordered_lo_hi a H2) as B; lia|specialize (IH H2 Hj); lia].
   - intros [H1 H2] [->|Hj]; [pose proof (ordered_lo_hi a H2) as B; lia|specialize (IH H2 Hj); lia].
   - intros (H1 & H2 & H3 & H4).
     pose proof (ordered_lo_hi l H3) as Bl. pose proof (ordered_lo_hi r H4) as Br.
     intros [->|[Hj|Hj]]; [lia|specialize (IHl H3 Hj); lia|specialize (IHr H4 Hj); lia].
+  - intros [H1 H2] [->|Hj]; [pose proof (ordered_lo_hi a H2) as B; lia|specialize (IH H2 Hj); lia].
 Qed.
 
 Lemma ordered_size t : ordered t -> size t + lo t <= S (hi t).
 Proof.
-  induction t as [i d k|i d k a IH|i d k a IH|i d k l IHl r IHr]; simpl.
+  induction t as [i d k|i d k a IH|i d k a IH|i d k l IHl r IHr|i k a IH]; simpl.
   - lia.
   - intros [H1 H2]. specialize (IH H2). lia.
   - intros [H1 H2]. specialize (IH H2). lia.
   - intros (H1 & H2 & H3 & H4). specialize (IHl H3). specialize (IHr H4). lia.
+  - intros [H1 H2]. specialize (IH H2). lia.
 Qed.
 
 Lemma ordered_ldepth t : ordered t -> ldepth t + lo t <= nid t.
 Proof.
-  induction t as [i d k|i d k a IH|i d k a IH|i d k l IHl r IHr]; simpl.
+  induction t as [i d k|i d k a IH|i d k a IH|i d k l IHl r IHr|i k a IH]; simpl.
   - lia.
   - lia.
   - intros [H1 H2]. specialize (IH H2). pose proof (ordered_lo_hi a H2) as B. lia.
   - intros (H1 & H2 & H3 & H4). specialize (IHl H3). pose proof (ordered_lo_hi l H3) as B. lia.
+  - lia.
 Qed.
 
 (* ---- the nodes ---- *)
@@ -179,33 +192,33 @@ Fixpoint denotes (ns : list pnode) (p : option nat) (t : ntree) : Prop :=
     exists n, nth_error ns i = Some n /\ bin_shape n d k /\ n_parent n = p /\
               n_left n = Some (nid l) /\ n_right n = Some (nid r) /\
               denotes ns (Some i) l /\ denotes ns (Some i) r
+  | NGroup i k a =>
+    exists n, nth_error ns i = Some n /\ n_sec n = S_StartGrouping /\ n_def n = D_Group /\ n_parent n = p /\
+              n_left n = None /\ n_right n = Some (nid a) /\ n_tok n = Some k /\ denotes ns (Some i) a
   end.
 
 Lemma denotes_root ns p t : denotes ns p t -> exists n, nth_error ns (nid t) = Some n /\ n_parent n = p.
 Proof.
-  destruct t; simpl.
-  - intros (n & H & A). exists n. split; [exact H|apply A].
-  - intros (n & H & A). exists n. split; [exact H|apply A].
-  - intros (n & H & A). exists n. split; [exact H|apply A].
-  - intros (n & H & A). exists n. split; [exact H|apply A].
+  destruct t; simpl; intros (n & H & A); exists n; (split; [exact H|apply A]).
 Qed.
 
 Lemma denotes_lt ns p t j : denotes ns p t -> has_id t j -> j < length ns.
 Proof.
-  revert p. induction t as [i d k|i d k a IH|i d k a IH|i d k l IHl r IHr]; simpl; intros p.
+  revert p. induction t as [i d k|i d k a IH|i d k a IH|i d k l IHl r IHr|i k a IH]; simpl; intros p.
   - intros (n & H & _) ->. eapply nth_error_lt; eauto.
   - intros (n & H & A) [->|Hj]; [eapply nth_error_lt; eauto|]. eapply IH; [apply A|exact Hj].
   - intros (n & H & A) [->|Hj]; [eapply nth_error_lt; eauto|]. eapply IH; [apply A|exact Hj].
   - intros (n & H & A) [->|[Hj|Hj]]; [eapply nth_error_lt; eauto| |].
     + eapply IHl; [apply A|exact Hj].
     + eapply IHr; [apply A|exact Hj].
+  - intros (n & H & A) [->|Hj]; [eapply nth_error_lt; eauto|]. eapply IH; [apply A|exact Hj].
 Qed.
 
 (* [denotes] only looks at the nodes of the tree *)
 Lemma denotes_ext ns ns' p t :
   (forall j, has_id t j -> nth_error ns' j = nth_error ns j) -> denotes ns p t -> denotes ns' p t.
 Proof.
-  revert p. induction t as [i d k|i d k a IH|i d k a IH|i d k l IHl r IHr]; simpl; intros p E.
+  revert p. induction t as [i d k|i d k a IH|i d k a IH|i d k l IHl r IHr|i k a IH]; simpl; intros p E.
   - intros (n & H & A). exists n. rewrite E by reflexivity. auto.
   - intros (n & H & A). exists n. rewrite E by auto. split; [exact H|].
     destruct A as (A1 & A2 & A3 & A4 & A5 & A6 & A7). repeat split; auto.
@@ -213,13 +226,15 @@ Proof.
     destruct A as (A1 & A2 & A3 & A4 & A5 & A6 & A7). repeat split; auto.
   - intros (n & H & A). exists n. rewrite E by auto. split; [exact H|].
     destruct A as (A1 & A2 & A3 & A4 & A5 & A6). repeat split; auto; try apply A1.
+  - intros (n & H & A). exists n. rewrite E by auto. split; [exact H|].
+    destruct A as (A1 & A2 & A3 & A4 & A5 & A6 & A7). repeat split; auto.
 Qed.
 
 (* ---- tree_of ---- *)
 Lemma tree_of_denotes ns : forall t p fuel, denotes ns p t -> size t <= fuel ->
   tree_of fuel ns 0 (nid t) = Some (erase t).
 Proof.
-  induction t as [i d k|i d k a IH|i d k a IH|i d k l IHl r IHr]; intros p fuel D Hf;
+  induction t as [i d k|i d k a IH|i d k a IH|i d k l IHl r IHr|i k a IH]; intros p fuel D Hf;
     (destruct fuel as [|fuel]; [simpl in Hf; lia|]); simpl in D, Hf; destruct D as (n & Hn & A);
     cbn [tree_of nid erase]; rewrite Hn.
   - destruct A as (A1 & A2 & A3 & A4 & A5 & A6 & A7). rewrite A5, A6, A7, A2, Nat.add_0_r.
@@ -233,6 +248,8 @@ Proof.
     destruct A1 as [(B1 & tk & -> & B2)|(B1 & -> & ->)].
     + rewrite B2, A0, Nat.add_0_r. destruct (n_sec n); try discriminate; reflexivity.
     + rewrite B1, A0. reflexivity.
+  - destruct A as (A1 & A2 & A3 & A4 & A5 & A6 & A7). rewrite A1, A2, A4, A5, A6, Nat.add_0_r.
+    rewrite (IH (Some i) fuel A7) by lia. reflexivity.
 Qed.
 
 (* ---- find_root ---- *)
@@ -242,7 +259,7 @@ Lemma find_root_climb ns : forall t p, denotes ns p t ->
     forall fuel count, count + ldepth t <= length ns ->
       find_root (ldepth t + fuel) ns (lo t) n0 count = find_root fuel ns (nid t) nr (count + ldepth t).
 Proof.
-  induction t as [i d k|i d k a IH|i d k a IH|i d k l IHl r IHr]; intros p D n0 H0; simpl in D;
+  induction t as [i d k|i d k a IH|i d k a IH|i d k l IHl r IHr|i k a IH]; intros p D n0 H0; simpl in D;
     destruct D as (n & Hn & A); cbn [lo nid ldepth] in *.
   - exists n0. rewrite H0 in Hn. injection Hn as <-. split; [exact H0|]. split; [apply A|].
     intros. rewrite Nat.add_0_r. reflexivity.
@@ -262,6 +279,8 @@ Proof.
     cbn [find_root]. rewrite R2, Hn.
     destruct (Nat.ltb_spec (length ns) (S (count + ldepth l))); [lia|].
     f_equal. lia.
+  - exists n0. rewrite H0 in Hn. injection Hn as <-. split; [exact H0|]. split; [apply A|].
+    intros. rewrite Nat.add_0_r. reflexivity.
 Qed.
 
 Lemma find_root_tree ns t n0 :
